@@ -1,3 +1,135 @@
-(* MCTS iteration-level cases of property C04: CASE lines whose input starts with "MCTS ;".
-   handle receives the remaining ';'-separated input fields and returns (L1, L2 option, spec disagreement option). *)
-let handle (_fields : string list) : string * string option * string option = failwith "no MCTS cases yet"
+(* MCTS iteration-level cases of property C04: CASE lines whose input starts with "MCTS ;" (harness/cmd/runimpl/mcts_steps.go).
+   handle receives the ';'-separated input fields after "MCTS" and returns (L1, L2 option, spec disagreement option).
+
+   input : MCTS ; <position> ; <place_win> ; <corners> ; <C> ; <MaxRollout> ; <EvalThreshold> ; <fuel> ; <Int31 stream> ; <sort oracle>
+   L1    : move=<move|PANIC> verdict=<OK|ERR|PANIC|-> children=<root's children>        (Mcts.get_move, Refine.mv)
+   L2    : <path>/<val|break>/<fnv64 of the dump> per pass ... final=<dump>              (Mcts.iter_step pass by pass)
+
+   The float scores of tree.ucb are a parameter of the model (coq/Mcts.v, Section Scores); here they are IEEE doubles:
+   OCaml's float is Go's float64, `sqrt` is the correctly rounded SQRTSD in both, and math.Log is ported below operation by
+   operation from $GOROOT/src/math/log.go (= log_amd64.s: same operations in the same order, no fused multiply-add). *)
+open Common
+
+let go_log (x : float) : float =
+  if Float.is_nan x || x = Float.infinity then x
+  else if x < 0.0 then Float.nan
+  else if x = 0.0 then Float.neg_infinity
+  else begin
+    let ln2hi = 6.93147180369123816490e-01 and ln2lo = 1.90821492927058770002e-10
+    and l1 = 6.666666666666735130e-01 and l2 = 3.999999999940941908e-01 and l3 = 2.857142874366239149e-01
+    and l4 = 2.222219843214978396e-01 and l5 = 1.818357216161805012e-01 and l6 = 1.531383769920937332e-01
+    and l7 = 1.479819860511658591e-01 in
+    let (f1, ki) = Float.frexp x in
+    let (f1, ki) = if f1 < 7.07106781186547524401e-01 then (f1 *. 2.0, ki - 1) else (f1, ki) in
+    let f = f1 -. 1.0 in
+    let k = float_of_int ki in
+    let s = f /. (2.0 +. f) in
+    let s2 = s *. s in
+    let s4 = s2 *. s2 in
+    let t1 = s2 *. (l1 +. s4 *. (l3 +. s4 *. (l5 +. s4 *. l7))) in
+    let t2 = s4 *. (l2 +. s4 *. (l4 +. s4 *. l6)) in
+    let r = t1 +. t2 in
+    let hfsq = 0.5 *. f *. f in
+    k *. ln2hi -. ((hfsq -. (s *. (hfsq +. r) +. k *. ln2lo)) -. f)
+  end
+
+(* -float64(t.value)/float64(t.simulations) + C*math.Sqrt(math.Log(float64(N))/float64(t.simulations)) *)
+let score (c : float) (value : BinNums.coq_Z) (sims : BinNums.coq_Z) (n : BinNums.coq_Z) : float =
+  let v = float_of_int (int_of_z value) and s = float_of_int (int_of_z sims) and nn = float_of_int (int_of_z n) in
+  (-. v) /. s +. c *. sqrt (go_log nn /. s)
+let f_gt (a : float) (b : float) : bool = a > b
+let f_eq (a : float) (b : float) : bool = a = b
+
+let rec dump_node (b : Buffer.t) (t : Mcts.tree) : unit =
+  let Mcts.T (_, m, sims, value, proven, chs) = t in
+  if Buffer.length b > 0 then Buffer.add_char b ',';
+  Buffer.add_string b (Printf.sprintf "%s/%s/%s/%s/%d" (enc_move m) (string_of_z sims) (string_of_z value) (string_of_z proven) (L.length chs));
+  L.iter (dump_node b) chs
+let dump (t : Mcts.tree) : string = let b = Buffer.create 4096 in dump_node b t; Buffer.contents b
+
+let fnv64 (s : string) : string =
+  let h = ref 0xcbf29ce484222325L in
+  S.iter (fun ch -> h := Int64.mul (Int64.logxor !h (Int64.of_int (Char.code ch))) 0x100000001b3L) s;
+  Printf.sprintf "%016Lx" !h
+
+let ints sep s = if s = "-" || s = "" then [] else L.map int_of_string (S.split_on_char sep s)
+let show_path p = if p = [] then "-" else S.concat "." (L.map string_of_int p)
+
+(* the path descend took in a pass is not an output of iter_step; it is read off the trees: the node whose simulation count
+   went up and that is deepest / the node that received children *)
+let rec changed_path (a : Mcts.tree) (b : Mcts.tree) : int list =
+  let Mcts.T (_, _, _, _, _, ca) = a and Mcts.T (_, _, _, _, _, cb) = b in
+  if ca = [] then []
+  else begin
+    let rec find i la lb = match la, lb with
+      | x :: ra, y :: rb -> if x == y || x = y then find (i + 1) ra rb else Some (i, x, y)
+      | _, _ -> None in
+    match find 0 ca cb with
+    | Some (i, x, y) -> i :: changed_path x y
+    | None -> []
+  end
+
+let rec node_at (path : int list) (t : Mcts.tree) : Mcts.tree option =
+  match path with
+  | [] -> Some t
+  | k :: rest -> (match L.nth_opt (Mcts.t_children t) k with Some c -> node_at rest c | None -> None)
+(* the rollout value of a pass: what was added to the value of the node the pass stopped at (0 for a decided node) *)
+let val_of (path : int list) (a : Mcts.tree) (b : Mcts.tree) : string =
+  match node_at path a, node_at path b with
+  | Some (Mcts.T (_, _, _, va, _, _)), Some (Mcts.T (_, _, _, vb, pr, _)) ->
+    if int_of_z pr <> 0 then "0" else string_of_int (int_of_z vb - int_of_z va)
+  | _, _ -> "?"
+
+let handle (fs : string list) : string * string option * string option =
+  match fs with
+  | [pos; pw; corners; c; maxroll; thr; fuel; stream; perm] ->
+    let p = parse_pos pos in
+    let cfg = { Mcts.place_win = (pw = "1"); max_rollout = z_of_string maxroll; eval_threshold = z_of_string thr;
+                force_corners = (corners = "1") } in
+    let cf = float_of_string c in
+    let rs = if stream = "-" then [] else L.map n_of_string (S.split_on_char ',' stream) in
+    let perm = L.map nat_of_int (ints '.' perm) in
+    let fuel = int_of_string fuel in
+    let sc = score cf in
+    let get_move = Mcts.get_move Float.neg_infinity (-100.0) 100.0 10.0 sc f_gt f_eq in
+    let iter_step = Mcts.iter_step Float.neg_infinity (-100.0) 100.0 10.0 sc f_gt f_eq in
+    (* L1: the whole GetMove *)
+    let res = get_move cfg (nat_of_int fuel) perm p rs in
+    let move_s, verdict = match res with
+      | Move.Ok (m, _) ->
+        (enc_move m, (match Refine.mv p m with Move.Ok _ -> "OK" | Move.Err -> "ERR" | Move.Panic -> "PANIC"))
+      | Move.Panic -> ("PANIC", "-")
+      | Move.Err -> ("MODEL-ERR", "-") in
+    let corner = cfg.Mcts.force_corners && int_of_z p.Move.move < 2 in
+    if corner then (Printf.sprintf "move=%s verdict=%s children=-" move_s verdict, Some "- final=-", None)
+    else begin
+      (* L2: pass by pass *)
+      let items = ref [] in
+      let rec go k t rs =
+        if k = 0 then (Move.Ok (t, rs))
+        else match iter_step cfg t rs with
+          | Move.Ok ((t', brk), rs') ->
+            let path = changed_path t t' in
+            items := (show_path path, (if brk then "break" else val_of path t t'), fnv64 (dump t')) :: !items;
+            if brk then Move.Ok (t', rs') else go (k - 1) t' rs'
+          | Move.Panic -> Move.Panic
+          | Move.Err -> Move.Err in
+      let stepped = go fuel (Mcts.root_of p) rs in
+      let its = L.rev !items in
+      (match stepped with
+       | Move.Ok (t, rs1) ->
+         let children = enc_moves (L.map Mcts.t_move (Mcts.t_children t)) in
+         let fin = Mcts.final_choice t perm rs1 in
+         let agree = (match fin, res with
+           | Move.Ok (m1, r1), Move.Ok (m2, r2) -> m1 = m2 && r1 = r2
+           | Move.Panic, Move.Panic -> true
+           | Move.Err, Move.Err -> true
+           | _, _ -> false) in
+         let l2 = S.concat " " (L.map (fun (pa, v, h) -> Printf.sprintf "%s/%s/%s" pa v h) its) in
+         let l2 = (if l2 = "" then "-" else l2) ^ " final=" ^ dump t in
+         (Printf.sprintf "move=%s verdict=%s children=%s" move_s verdict children, Some l2,
+          if agree then None else Some "model: get_move differs from iter_step pass by pass + final_choice")
+       | Move.Panic -> (Printf.sprintf "move=%s verdict=%s children=?" move_s verdict, Some "PANIC final=?", None)
+       | Move.Err -> (Printf.sprintf "move=%s verdict=%s children=?" move_s verdict, Some "MODEL-ERR", None))
+    end
+  | _ -> failwith "c04m input"
